@@ -86,15 +86,8 @@ theorem setItem_withMode (r : Record) (m : Mode) (k : RKey) (x : RCol) :
 
 /-! ### `Record.validate` -/
 
-/-- the exception of the self-consistency assertions of `validate`, if any -/
-def Record.assertFail (r : Record) : Option PyErr :=
-  if r.slots.any (·.isNone) then none
-  else match r.assertionsHold with
-    | .error e => some e
-    | .ok false => some .assertion
-    | .ok true => none
-
-/-- the error list `validate` leaves on the record -/
+/-- the error list `validate` leaves on the record: the errors kept, the column count, the
+    per-slot errors, and (when no slot is empty) the self-consistency errors -/
 def Record.validateErrors (C : Ctx) (r : Record) (reset : Bool) (scheme : Option Scheme) : List VErr :=
   (if reset then [] else r.errors)
     ++ (match scheme.filter Scheme.truthy with
@@ -102,23 +95,19 @@ def Record.validateErrors (C : Ctx) (r : Record) (reset : Bool) (scheme : Option
         | none => [])
     ++ r.slots.flatMap (fun s => match s with
         | none => [{ tpe := "RECORD_COLUMN_WITH_NO_VALUE", line := r.line }]
-        | some c => c.col.validate C scheme none)
+        | some c => r.columnErrors C scheme c)
+    ++ (if r.slots.any (·.isNone) then [] else r.syncErrors)
 
-/-- `validate` = a stringency-independent record and assertion outcome, then `processErrors` -/
+/-- `validate` = a stringency-independent record, then `processErrors` (`validate` itself never
+    raises) -/
 theorem validate_eq (C : Ctx) (r : Record) (mode : Option Mode) (reset : Bool) (scheme : Option Scheme) :
     r.validate C mode reset scheme =
       ({ r with errors := r.validateErrors C reset scheme },
-        match r.assertFail with
-        | some e => .error e
-        | none => processErrors (mode.getD r.mode) (r.validateErrors C reset scheme)) := by
-  unfold Record.validate Record.assertFail Record.validateErrors
-  simp only []
-  by_cases h : (r.slots.any (·.isNone)) = true
-  · rw [if_pos h, if_pos h]; rfl
-  · rw [if_neg h, if_neg h]
-    cases r.assertionsHold with
-    | error e => rfl
-    | ok b => cases b <;> rfl
+        processErrors (mode.getD r.mode) (r.validateErrors C reset scheme)) := rfl
+
+theorem Record.columnErrors_none' (C : Ctx) (r : Record) (c : RCol) :
+    r.columnErrors C none c = c.col.validate C none none := by
+  simp [Record.columnErrors]
 
 /-! ### `Record.fromLine`, taken apart -/
 
@@ -224,19 +213,13 @@ theorem foldl_fromLineStep_withMode (C : Ctx) (scheme : Option Scheme) (lineNo :
 
 theorem finishLine_eq (C : Ctx) (r : Record) :
     finishLine C r =
-      match r.assertFail with
-      | some e => .error e
-      | none =>
-        match processErrors r.mode (r.validateErrors C false none) with
-        | .error e => .error e
-        | .ok lg => .ok ({ r with errors := r.validateErrors C false none }, lg) := by
+      match processErrors r.mode (r.validateErrors C false none) with
+      | .error e => .error e
+      | .ok lg => .ok ({ r with errors := r.validateErrors C false none }, lg) := by
   unfold finishLine
   rw [validate_eq]
-  cases r.assertFail with
-  | some e => rfl
-  | none =>
-    simp only [Option.getD_none]
-    cases processErrors r.mode (r.validateErrors C false none) <;> rfl
+  simp only [Option.getD_none]
+  cases processErrors r.mode (r.validateErrors C false none) <;> rfl
 
 /-- the record `from_line` has built before its closing `validate` (stringency field: Silent) -/
 def preRecord (C : Ctx) (line : Text) (columnNames : Option (List Text)) (scheme : Option Scheme)
@@ -259,10 +242,7 @@ def parsedLine (C : Ctx) (line : Text) (columnNames : Option (List Text)) (schem
     (lineNo : Option Nat) : Except PyErr Record :=
   match preRecord C line columnNames scheme lineNo with
   | .error e => .error e
-  | .ok r =>
-    match r.assertFail with
-    | some e => .error e
-    | none => .ok { r with errors := r.validateErrors C false none }
+  | .ok r => .ok { r with errors := r.validateErrors C false none }
 
 theorem fromLine_pre (C : Ctx) (line : Text) (columnNames : Option (List Text))
     (scheme : Option Scheme) (lineNo : Option Nat) (mode : Option Mode) :
@@ -306,11 +286,7 @@ theorem fromLine_spec (C : Ctx) (line : Text) (columnNames : Option (List Text))
   | ok r =>
     simp only []
     rw [finishLine_eq]
-    change (match r.assertFail with | some e => _ | none => _) = _
-    cases r.assertFail with
-    | some e => rfl
-    | none =>
-      change (match processErrors (modeOrSilent mode) (r.validateErrors C false none) with | .error e => _ | .ok lg => _) =
+    · change (match processErrors (modeOrSilent mode) (r.validateErrors C false none) with | .error e => _ | .ok lg => _) =
         ((match processErrors (modeOrSilent mode) (r.validateErrors C false none) with
           | .error e => .error e
           | .ok lg => .ok (({ r with errors := r.validateErrors C false none } : Record).withMode (modeOrSilent mode), lg)
@@ -329,7 +305,12 @@ theorem schemeErrors_line (C : Ctx) (col : Column) (s : Option Scheme) (ln : Opt
       · simp at he; subst he; exact ⟨rfl, rfl⟩
       · split at he
         · simp at he; subst he; exact ⟨rfl, rfl⟩
-        · simp at he
+        · split at he
+          · simp only [] at he
+            split at he
+            · simp at he; subst he; exact ⟨rfl, rfl⟩
+            · simp at he
+          · simp at he
     · simp at he; subst he; exact ⟨rfl, rfl⟩
 
 theorem Column.validate_line (C : Ctx) (col : Column) (s : Option Scheme) (ln : Option Nat) :
@@ -426,6 +407,35 @@ theorem fieldStep_line {C : Ctx} {sch : Option Scheme} {ln : Option Nat} {r : Re
       subst h
       exact ⟨hr.1, herrs⟩
 
+theorem syncErrors_line (r : Record) : ∀ e ∈ r.syncErrors, e.line = r.line ∧ e.origin = none := by
+  intro e he
+  unfold Record.syncErrors at he
+  simp only [List.mem_append, List.mem_filterMap] at he
+  rcases he with he | ⟨p, _, he⟩
+  · split at he
+    · simp at he
+    · simp at he; subst he; exact ⟨rfl, rfl⟩
+  · split at he
+    · split at he
+      · cases he
+      · cases he; exact ⟨rfl, rfl⟩
+    · cases he
+
+/-- the errors of a scheme-less `validate` that keeps the old errors -/
+theorem mem_validateErrors_none {C : Ctx} {r : Record} {e : VErr} (he : e ∈ r.validateErrors C false none) :
+    e ∈ r.errors ∨ (none ∈ r.slots ∧ e = { tpe := "RECORD_COLUMN_WITH_NO_VALUE", line := r.line }) ∨
+      (∃ c, some c ∈ r.slots ∧ e ∈ c.col.validate C none none) ∨ e ∈ r.syncErrors := by
+  simp only [Record.validateErrors, Bool.false_eq_true, if_false, Option.filter_none, List.append_nil,
+    List.mem_append, List.mem_flatMap] at he
+  rcases he with (he | ⟨s, hs, he⟩) | he
+  · exact .inl he
+  · cases s with
+    | none => simp at he; exact .inr (.inl ⟨hs, he⟩)
+    | some c => simp only [Record.columnErrors_none'] at he; exact .inr (.inr (.inl ⟨c, hs, he⟩))
+  · split at he
+    · cases he
+    · exact .inr (.inr (.inr he))
+
 /-- **line numbers of record errors**: every error `from_line` collects for a line carries the
     line number `from_line` was given — except possibly `RECORD_COLUMN_WRONG_FORMAT` errors of the
     closing re-validation, which carry no line number -/
@@ -453,24 +463,18 @@ theorem parsedLine_lines {C : Ctx} {line : Text} {cn : Option (List Text)} {sch 
             subst hpre
             exact foldl_fromLineStep_ind (P := fun _ r _ => r.line = ln ∧ ∀ e ∈ r.errors, e.line = ln)
               (fun nv nvs r i p hP hs => fieldStep_line hs hP) _ _ _ ⟨rfl, by simp⟩ _ hfold
-    split at h
-    · cases h
-    · simp only [Except.ok.injEq] at h
-      subst h
-      refine ⟨hr.1, ?_⟩
-      intro e he
-      simp only [Record.validateErrors] at he
-      simp only [Bool.false_eq_true, if_false, Option.filter_none, List.append_nil, List.mem_append,
-        List.mem_flatMap] at he
-      rcases he with he | ⟨s, hs, he⟩
-      · exact .inl (hr.2 e he)
-      · cases s with
-        | none => simp at he; subst he; exact .inl hr.1
-        | some c =>
-          simp only [Column.validate_none] at he
-          split at he
-          · simp at he; subst he; exact .inr ⟨rfl, rfl⟩
-          · simp at he
+    simp only [Except.ok.injEq] at h
+    subst h
+    refine ⟨hr.1, ?_⟩
+    intro e he
+    rcases mem_validateErrors_none he with he | ⟨_, he⟩ | ⟨c, _, he⟩ | he
+    · exact .inl (hr.2 e he)
+    · subst he; exact .inl hr.1
+    · simp only [Column.validate_none] at he
+      split at he
+      · simp at he; subst he; exact .inr ⟨rfl, rfl⟩
+      · simp at he
+    · exact .inl ((syncErrors_line r e he).1.trans hr.1)
 
 
 /-! ### `from_line` with pairwise distinct column names never fails outside Strict mode -/
@@ -593,66 +597,6 @@ theorem all_some_eq_map_filterMap {α} (l : List (Option α)) (h : l.any (·.isN
     | none => simp at h
     | some a => simp [← ih h.2]
 
-theorem LineInv.assertFail {r : Record} {i : Nat} (h : LineInv r i) : r.assertFail = none := by
-  unfold Record.assertFail
-  split
-  · rfl
-  · rename_i hany
-    have hany : r.slots.any (·.isNone) = false := by
-      cases hb : r.slots.any (·.isNone) with
-      | false => rfl
-      | true => exact absurd hb hany
-    have hslots := all_some_eq_map_filterMap r.slots hany
-    rw [← h.vals] at hslots
-    -- every stored column sits in the slot of its index
-    have hidx : ∀ j (hj : j < (r.dict.map Prod.snd).length),
-        ((r.dict.map Prod.snd)[j]).col.index = some (j : Int) ∧ ((r.dict.map Prod.snd)[j]).oid = j := by
-      intro j hj
-      apply h.idx j
-      rw [hslots]
-      rw [List.getElem?_map, List.getElem?_eq_getElem hj]
-      rfl
-    have hA : r.assertionsHold = .ok true := by
-      unfold Record.assertionsHold
-      have h1 : r.dict.any (fun p => p.2.col.index.isNone) = false := by
-        rw [List.any_eq_false]
-        intro p hp
-        obtain ⟨j, hj, hjp⟩ := List.getElem_of_mem (List.mem_map_of_mem (f := Prod.snd) hp)
-        have := (hidx j hj).1
-        rw [hjp] at this
-        simp [this]
-      rw [if_neg (by simp [h1])]
-      have hsorted : (r.dict.map Prod.snd).mergeSort (fun a b => decide (a.col.index.getD 0 ≤ b.col.index.getD 0))
-          = r.dict.map Prod.snd := by
-        apply List.mergeSort_of_pairwise
-        rw [List.pairwise_iff_getElem]
-        intro a b ha hb hab
-        rw [(hidx a ha).1, (hidx b hb).1]
-        simp only [Option.getD_some, decide_eq_true_eq]
-        omega
-      simp only [hsorted]
-      have h2 : r.dict.length = r.slots.length := by
-        have := congrArg List.length hslots
-        simp at this
-        exact this.symm
-      have h3 : (r.slots.filterMap (·.map (·.oid))) = (r.dict.map Prod.snd).map (·.oid) := by
-        conv => lhs; rw [hslots]
-        simp [List.filterMap_map, Function.comp_def]
-      have h4 : (r.slots.zipIdx.all (fun (p : Option RCol × Nat) => match p.1 with
-            | some c => c.col.index == some (p.2 : Int)
-            | none => true)) = true := by
-        rw [List.all_eq_true]
-        intro p hp
-        have := List.mem_zipIdx_iff_getElem?.1 (show (p.1, p.2) ∈ r.slots.zipIdx from hp)
-        cases hp1 : p.1 with
-        | none => rfl
-        | some c =>
-          rw [hp1] at this
-          simp [(h.idx p.2 c this).1]
-      simp only [h2, h3, decide_true, beq_self_eq_true, Bool.true_and]
-      exact congrArg Except.ok h4
-    rw [hA]
-
 /-- the loop invariant of `from_line` for pairwise distinct column names -/
 def FreshInv (nvs : List (Text × Text)) (r : Record) (i : Nat) : Prop :=
   LineInv r i ∧ (nvs.map Prod.fst).Nodup ∧ ∀ p ∈ r.dict, p.1 ∉ nvs.map Prod.fst
@@ -708,7 +652,6 @@ theorem parsedLine_nodup_dict (C : Ctx) (line : Text) {cn : Option (List Text)} 
     simp only []
     have : LineInv ({ line := ln, mode := .silent, errors := [{ tpe := "RECORD_MISMATCH_NUMBER_OF_COLUMNS", line := ln, origin := ln }] } : Record) 0 :=
       ⟨rfl, Nat.le_refl _, by intro j c h; simp at h⟩
-    rw [this.assertFail]
     exact ⟨_, rfl, by simp⟩
   · rw [if_neg hl]
     have hl : names.length = (splitOn '\t' (rstripCRLF line)).length := by
@@ -733,46 +676,23 @@ theorem parsedLine_nodup_dict (C : Ctx) (line : Text) {cn : Option (List Text)} 
             subst hq
             exact hQ _ _ _ _ hb) _ _ _ h0
     rw [hp]
-    simp only []
-    rw [hP.1.1.assertFail]
     exact ⟨_, rfl, hP.2⟩
 
-/-- with pairwise distinct names the self-consistency assertions of the closing `validate` hold,
-    so the parse is the field loop followed by the error collection of `validate` — a form that
-    can be evaluated (no `mergeSort`) -/
-theorem parsedLine_eq_of_nodup (C : Ctx) (line : Text) {cn : Option (List Text)} {sch : Option Scheme}
-    (ln : Option Nat) {names : List Text} (hn : lineNames cn sch = some names) (hnd : names.Nodup) :
+/-- the parse is the field loop followed by the error collection of `validate` — a form that can
+    be evaluated.  (Since `validate` no longer asserts, this holds for all column names.) -/
+theorem parsedLine_eq (C : Ctx) (line : Text) (cn : Option (List Text)) (sch : Option Scheme)
+    (ln : Option Nat) :
     parsedLine C line cn sch ln =
       match preRecord C line cn sch ln with
       | .error e => .error e
-      | .ok r => .ok { r with errors := r.validateErrors C false none } := by
-  have key : ∀ r, preRecord C line cn sch ln = .ok r → r.assertFail = none := by
-    intro r hr
-    unfold preRecord at hr
-    rw [hn] at hr
-    simp only [] at hr
-    by_cases hl : names.length ≠ (splitOn '\t' (rstripCRLF line)).length
-    · rw [if_pos hl] at hr
-      cases hr
-      exact (show LineInv ({ line := ln, mode := .silent, errors := [{ tpe := "RECORD_MISMATCH_NUMBER_OF_COLUMNS", line := ln, origin := ln }] } : Record) 0 from
-        ⟨rfl, Nat.le_refl _, by intro j c h; simp at h⟩).assertFail
-    · rw [if_neg hl] at hr
-      have hl : names.length = (splitOn '\t' (rstripCRLF line)).length := by simpa using hl
-      have h0 : FreshInv (names.zip (splitOn '\t' (rstripCRLF line))) ({ line := ln, mode := .silent } : Record) 0 := by
-        refine ⟨⟨rfl, Nat.le_refl _, by intro j c h; simp at h⟩, ?_, by simp⟩
-        rw [List.map_fst_zip (by omega)]
-        exact hnd
-      obtain ⟨p, hp, hP⟩ := foldl_fromLineStep_ok (C := C) (sch := sch) (ln := ln) (P := FreshInv)
-        (fun nv nvs r i h => by
-          obtain ⟨p, hp, hF, _⟩ := fieldStep_fresh (C := C) (sch := sch) (ln := ln) nv nvs r i h
-          exact ⟨p, hp, hF⟩) _ _ _ h0
-      rw [hp] at hr
-      cases hr
-      exact hP.1.assertFail
-  unfold parsedLine
-  cases hpre : preRecord C line cn sch ln with
-  | error e => rfl
-  | ok r => simp only [key r hpre]
+      | .ok r => .ok { r with errors := r.validateErrors C false none } := rfl
+
+theorem parsedLine_eq_of_nodup (C : Ctx) (line : Text) {cn : Option (List Text)} {sch : Option Scheme}
+    (ln : Option Nat) {names : List Text} (_hn : lineNames cn sch = some names) (_hnd : names.Nodup) :
+    parsedLine C line cn sch ln =
+      match preRecord C line cn sch ln with
+      | .error e => .error e
+      | .ok r => .ok { r with errors := r.validateErrors C false none } := rfl
 
 theorem parsedLine_ok_of_nodup (C : Ctx) (line : Text) {cn : Option (List Text)} {sch : Option Scheme}
     (ln : Option Nat) {names : List Text} (hn : lineNames cn sch = some names) (hnd : names.Nodup) :
@@ -952,18 +872,13 @@ theorem parsedLine_lines_all {C : Ctx} {line : Text} {cn : Option (List Text)} {
               cases hpre
               exact foldl_fromLineStep_ind (P := fun _ r _ => r.line = ln ∧ ∀ e ∈ r.errors, e.line = ln)
                 (fun nv nvs r i p hP hs => fieldStep_line hs hP) _ _ _ ⟨rfl, by simp⟩ _ hfold
-      split at h
-      · cases h
-      · cases h
-        simp only [Record.validateErrors, Bool.false_eq_true, if_false, Option.filter_none,
-          List.append_nil, List.mem_append, List.mem_flatMap] at he
-        rcases he with he | ⟨s, hs, he⟩
-        · exact hline.2 e he
-        · cases s with
-          | none => simp at he; subst he; exact hline.1
-          | some c =>
-            simp only [Column.validate_none, hvalid c hs] at he
-            simp at he
+      cases h
+      rcases mem_validateErrors_none he with he | ⟨_, he⟩ | ⟨c, hs, he⟩ | he
+      · exact hline.2 e he
+      · subst he; exact hline.1
+      · simp only [Column.validate_none, hvalid c hs] at he
+        simp at he
+      · exact (syncErrors_line r e he).1.trans hline.1
 
 
 end Model
